@@ -5,6 +5,7 @@ package props
 import (
 	"encoding/hex"
 	"fmt"
+	"github.com/ethereum/go-ethereum/core/types/goattypes"
 	"testing"
 	"time"
 
@@ -35,7 +36,10 @@ type DepBatch struct {
 	Restart bool      `json:"restart"`
 	// Reimport: after this batch's block the chain is restarted from its exported state
 	Reimport bool `json:"reimport,omitempty"`
-	SameBlk  bool `json:"same_block"` // deliver in the same consensus block as the previous batch
+	// Tax: before this batch the execution layer requests another deposit tax (rate in basis points, cap); everything
+	// credited so far is handed over first, and the batch is judged under the parameters the chain then reports
+	Tax     *TaxReq `json:"tax,omitempty"`
+	SameBlk bool    `json:"same_block"` // deliver in the same consensus block as the previous batch
 }
 
 var depthChoices = []int{0, 1, 2, 3, 50, 97, 98, 99, 100, 101, 102, 120, 129}
@@ -325,6 +329,11 @@ func genDepositHistory(t *rapid.T) DepositCase {
 			}
 		}
 	}
+	for i := range c.Batches {
+		if rapid.IntRange(0, 5).Draw(t, "taxRoll") == 0 {
+			c.Batches[i].Tax = &TaxReq{Rate: rapid.SampledFrom([]uint64{0, 20, 9999, 10_000, 10_000, 10_001, 1 << 32}).Draw(t, "taxRate"), Max: rapid.SampledFrom([]uint64{0, 0, 1, 1 << 40}).Draw(t, "taxMax")}
+		}
+	}
 	if rapid.IntRange(0, 2).Draw(t, "phantomRoll") == 0 {
 		c.Phantom = rapid.IntRange(1, 12).Draw(t, "phantom")
 	}
@@ -405,6 +414,32 @@ func runDepositHistory(c DepositCase) Outcome {
 		return nil
 	}
 	for bi, batch := range c.Batches {
+		if batch.Tax != nil {
+			// hand over what is owed under the old parameters, then change them
+			if fl := flush(); fl != nil {
+				o.Fail = fl
+				return o
+			}
+			for i := 0; i < 40 && len(deliveredOrder) < len(creditOrder); i++ {
+				if fl := flush(); fl != nil {
+					o.Fail = fl
+					return o
+				}
+			}
+			br := goattypes.BridgeRequests{DepositTax: []*goattypes.DepositTaxRequest{{Rate: batch.Tax.Rate, Max: batch.Tax.Max}}}
+			r, err := f.sim.Step(world.StepOpts{DT: 5 * time.Second, Proposer: -1, Eth: world.EthBlockOpts{Plan: world.BuildPlan{Requests: br.Encode()}}})
+			if err != nil || r.Resp.TxResults[0].Code != 0 {
+				o.Fail = failf("block-processing", "block-failed", "tax request before batch %d: %v", bi, err)
+				return o
+			}
+			var pr bitcointypes.QueryParamsResponse
+			if err := f.sim.Node.Query("/goat.bitcoin.v1.Query/Params", &bitcointypes.QueryParamsRequest{}, &pr); err != nil {
+				o.Fail = failf("query", "query-failed", "%v", err)
+				return o
+			}
+			f.params.Rate, f.params.MaxTax = pr.Params.DepositTaxRate, pr.Params.MaxDepositTax
+			o.Classes = append(o.Classes, fmt.Sprintf("tax-request/rate=%d", batch.Tax.Rate))
+		}
 		msg := &bitcointypes.MsgNewDeposits{Proposer: propAddr}
 		headers := map[uint64]bool{}
 		expect := true
@@ -497,7 +532,11 @@ func runDepositHistory(c DepositCase) Outcome {
 			f.sim.Node = n2
 			o.Classes = append(o.Classes, "restart")
 		}
-		if batch.Reimport {
+		if batch.Reimport && !genesisAcceptsTax(f.params) {
+			// known finding (C18): the run-time accepts tax settings that genesis validation refuses, so this state cannot
+			// be re-imported; the restart is left out here and the finding is demonstrated under C18
+			o.Classes = append(o.Classes, "reimport-skipped:tax-pair-not-importable")
+		} else if batch.Reimport {
 			if fl := flush(); fl != nil {
 				o.Fail = fl
 				return o
@@ -639,6 +678,15 @@ func TestC03_History(t *testing.T) {
 	RunProp(t, Prop[DepositCase]{
 		ID: "C03", Name: "history", Quick: 640, Thor: 10_000,
 		Gen: genDepositHistory, Run: runDepositHistory,
-		Rule: "histories of 2-8 MsgNewDeposits transactions (1-16 items each, repeated items, mutated items, several batches per consensus block, process restarts and restarts from an exported state between blocks) through FinalizeBlock; model: a batch succeeds iff every item is acceptable and no (txid, output) was credited before or repeats inside it; every deposit system transaction found in later execution payloads must have been credited by the model exactly once, in order, with amount+tax=value and the tax formula; HasDeposited equals the model set; a third of the histories end with a rolled-back vote (one transaction votes hash X for tip+1 and carries deposits against X of which the last fails; then Y is voted: a deposit proven against X must be refused, one against Y credited); non-trivial = history contains an acceptable item",
+		Rule: "histories of 2-8 MsgNewDeposits transactions (1-16 items each, repeated items, mutated items, several batches per consensus block, process restarts and restarts from an exported state between blocks, execution-layer tax requests with rates around 100% between batches) through FinalizeBlock; model: a batch succeeds iff every item is acceptable and no (txid, output) was credited before or repeats inside it; every deposit system transaction found in later execution payloads must have been credited by the model exactly once, in order, with amount+tax=value and the tax formula; HasDeposited equals the model set; a third of the histories end with a rolled-back vote (one transaction votes hash X for tip+1 and carries deposits against X of which the last fails; then Y is voted: a deposit proven against X must be refused, one against Y credited); non-trivial = history contains an acceptable item",
 	})
+}
+
+
+// genesisAcceptsTax mirrors the rule of bitcoin Params.Validate for the (rate, cap) pair.
+func genesisAcceptsTax(p DepParams) bool {
+	if p.Rate > 0 {
+		return p.MaxTax > 0 && p.Rate < 10_000 && p.MaxTax <= 100_000_000
+	}
+	return p.MaxTax == 0
 }
